@@ -92,6 +92,30 @@ pub fn main(args: &[String]) -> i32 {
             writeln!(out, "{}", json!({"kind": "closure", "iv": [a, b], "result": r.intervals()})).unwrap();
         }
     }
+    // 3c. closure of every short interval that begins at (or just before) a cased code point: the
+    //     interval folding code works range by range, with strides, and depends on where the interval
+    //     starts inside a range
+    {
+        let mut starts: BTreeSet<u32> = BTreeSet::new();
+        for key in ["scf_classes"] {
+            for cl in oracle[key].as_array().unwrap() {
+                for m in cl.as_array().unwrap() {
+                    let c = m.as_u64().unwrap() as u32;
+                    starts.insert(c);
+                    starts.insert(c.saturating_sub(1));
+                }
+            }
+        }
+        for a in starts {
+            for k in 1..=4u32 {
+                let b = (a + k).min(0x10FFFF);
+                let mut s = V::VerifCodePointSet::new();
+                s.add(a, b);
+                let r = s.add_icase_code_points();
+                writeln!(out, "{}", json!({"kind": "closure", "iv": [a, b], "result": r.intervals()})).unwrap();
+            }
+        }
+    }
     // 4. regex level
     let mut cands: BTreeSet<u32> = BTreeSet::new();
     for key in ["scf_classes", "legacy_classes"] {
